@@ -43,6 +43,10 @@ fn stimulate(kind: &str, worker: &str, server: &Server) {
     }
 }
 
+fn timing_field(line: Option<&str>, key: &str) -> Option<i64> {
+    line?.split_whitespace().find_map(|t| t.strip_prefix(key).and_then(|r| r.strip_prefix('=')).and_then(|v| v.parse().ok()))
+}
+
 fn one(out: &mut impl Write, kind: &str, worker: &str, mode: &str, socket_workers: usize, swarm_workers: usize) {
     let head = format!("sv {} {} {} {} {}", kind, worker, mode, socket_workers, swarm_workers);
     if mode == "bind" {
@@ -55,12 +59,14 @@ fn one(out: &mut impl Write, kind: &str, worker: &str, mode: &str, socket_worker
         let mut child = std::process::Command::new(exe).args(["serve", kind, &format!("port={}", port), "use_ipv6=false", &format!("socket_workers={}", socket_workers), &format!("swarm_workers={}", swarm_workers)])
             .stdin(std::process::Stdio::null()).stdout(std::process::Stdio::piped()).stderr(std::process::Stdio::null()).spawn().unwrap();
         let mut res = format!("RUNNING {}", 12000);
-        while t0.elapsed() < Duration::from_secs(12) {
+        while t0.elapsed() < Duration::from_secs(40) {
             if let Ok(Some(_)) = child.try_wait() {
                 let mut o = String::new();
                 if let Some(mut so) = child.stdout.take() { let _ = std::io::Read::read_to_string(&mut so, &mut o); }
                 let l = o.lines().filter(|l| l.starts_with("EXIT")).last().unwrap_or("EXIT process-died").replace(' ', "_");
-                res = format!("exited {} {}", t0.elapsed().as_millis(), l);
+                // the child's own measure of how long run() took (a loaded machine stretches process start-up, not that)
+                let ms = timing_field(o.lines().filter(|l| l.starts_with("TIMING")).last(), "run_ms").unwrap_or(t0.elapsed().as_millis() as i64);
+                res = format!("exited {} {}", ms, l);
                 break;
             }
             std::thread::sleep(Duration::from_millis(50));
@@ -80,10 +86,17 @@ fn one(out: &mut impl Write, kind: &str, worker: &str, mode: &str, socket_worker
     while Instant::now() < due + Duration::from_millis(100) { std::thread::sleep(Duration::from_millis(20)); }
     let mut res = format!("RUNNING {}", 12000);
     let mut last_stim = Instant::now() - Duration::from_secs(1);
-    while due.elapsed() < Duration::from_secs(12) {
+    // (generous: on a loaded machine the worker may reach its fault point late; what is judged is the
+    // child's own measure from the moment the fault took effect to the return of run())
+    while due.elapsed() < Duration::from_secs(40) {
         if last_stim.elapsed() > Duration::from_millis(400) { stimulate(kind, worker, &server); last_stim = Instant::now(); }
         if let Some(l) = server.exit_line(Duration::from_millis(50)) {
-            res = format!("exited {} {}", due.elapsed().as_millis(), l.replace(' ', "_"));
+            let since = timing_field(server.timing.as_deref(), "since_fault_ms").filter(|v| *v >= 0);
+            match since {
+                Some(ms) => res = format!("exited {} {}", ms, l.replace(' ', "_")),
+                // run() returned although the injected fault never took effect
+                None => res = format!("exited-before-fault {} {}", due.elapsed().as_millis(), l.replace(' ', "_")),
+            }
             break;
         }
     }
